@@ -78,7 +78,9 @@ def c_kind(k) -> str:
         return t
     if t == "HAddArg":
         return f"(HAddArg {cstr(k[1])} {c_expr(k[2])})"
-    if t in ("HSslTls", "HPyyaml", "HLimitReadline", "HTarget"):
+    if t == "HPyyaml":
+        return f"(HPyyaml {k[2]} {c_expr(k[1])})"
+    if t in ("HSslTls", "HLimitReadline", "HTarget"):
         return f"({t} {c_expr(k[1])})"
     if t == "HSwapCallee":
         return f"(HSwapCallee {c_expr(k[1])} {cstr(k[2])})"
@@ -345,7 +347,11 @@ def transformer_classes():
     }
 
 
+PYYAML_VARIANT = ["PyyamlByIndex"]   # set from Generated/Tables (pyyaml_shape) at the start of run()
+
+
 def table_rows(ctx):
+    PYYAML_VARIANT[0] = (ctx.tables or {}).get("pyyaml_shape", "PyyamlByParameter")
     return {name: [tuple(e) for e in entries] for name, entries in (ctx.tables or {}).get("newargs", [])}
 
 
@@ -374,7 +380,7 @@ def kind_for(codemod, rows, tags=None, ast_mode=False):
     if codemod == "secure-random":
         return ("HTarget", pv("secrets.SystemRandom()"))
     if codemod == "harden-pyyaml":
-        return ("HPyyaml", pv("yaml.SafeLoader"))
+        return ("HPyyaml", pv("yaml.SafeLoader"), PYYAML_VARIANT[0])
     raise KeyError(codemod)
 
 
